@@ -228,6 +228,71 @@ fn check_line(ctx: &mut Ctx, line: &Line, word_len: usize) {
     let mut word = Vec::new();
     rec(ctx, line, &chain, &fulls, &keys, n, &mut word, word_len, &mut covered);
     ctx.add(TRIPLES, covered.len() as u64);
+    if n > word_len {
+        // sweeps over the whole chain, every step checked: forward to the end and one beyond, back
+        // to the start and one beyond, the same after the jumps, and a zigzag (two on, one back)
+        let mut sweeps: Vec<Vec<u8>> = Vec::new();
+        let mut a: Vec<u8> = vec![0; n + 1];
+        a.extend(vec![1u8; n + 1]);
+        sweeps.push(a);
+        let mut b: Vec<u8> = vec![3];
+        b.extend(vec![1u8; n + 1]);
+        b.push(2);
+        b.extend(vec![0u8; n + 1]);
+        sweeps.push(b);
+        let mut z: Vec<u8> = Vec::new();
+        for _ in 0..n {
+            z.extend([0u8, 0, 1]);
+        }
+        sweeps.push(z);
+        for (si, word) in sweeps.iter().enumerate() {
+            ctx.add(WORDS, 1);
+            let mut w = chain.walk();
+            let mut pos = 0usize;
+            for (step, &op) in word.iter().enumerate() {
+                ctx.add(STEPS, 1);
+                ctx.transitions += 1;
+                let mut bad: Option<String> = None;
+                match op {
+                    0 | 1 => {
+                        let (got, want_idx) = if op == 0 {
+                            let r = w.next().map(|(b, m)| (full(b), key_of_move(&m)));
+                            let want = if pos == n { None } else { pos += 1; Some(pos - 1) };
+                            (r, want)
+                        } else {
+                            let r = w.prev().map(|(b, m)| (full(b), key_of_move(&m)));
+                            let want = if pos == 0 { None } else { pos -= 1; Some(pos) };
+                            (r, want)
+                        };
+                        match (&got, want_idx) {
+                            (None, None) => ctx.add(NONE, 1),
+                            (Some((f, k)), Some(i)) => {
+                                if Some(f) != fulls[i].as_ref() || *k != keys[i] {
+                                    bad = Some(format!("sweep {} step {}: walker returned (position, move) that is not (position before move {}, move {})", si, step, i, i));
+                                }
+                            }
+                            _ => bad = Some(format!("sweep {} step {}: walker returned {} where the game says {:?}", si, step, if got.is_some() { "a move" } else { "None" }, want_idx)),
+                        }
+                    }
+                    2 => {
+                        w.start();
+                        pos = 0;
+                    }
+                    _ => {
+                        w.end();
+                        pos = n;
+                    }
+                }
+                if bad.is_none() && (w.pos() != pos || w.len() != n) {
+                    bad = Some(format!("sweep {} step {}: walker pos() = {} len() = {} but the cursor should be at {} of {}", si, step, w.pos(), w.len(), pos, n));
+                }
+                if let Some(msg) = bad {
+                    ctx.violate(line.case(json!({"sweep": si, "step": step})), msg);
+                    break;
+                }
+            }
+        }
+    }
     let after = crate::props::chains::obs(&chain);
     if after != before {
         ctx.violate(line.case(json!("untouched")), "walking changed the chain".into());
@@ -393,6 +458,13 @@ pub fn run(run: &mut Run) {
     run.par_shards(&format!("LINES ({} chains) x all walker words of length <= {} over {{next, prev, start, end}} x all print policies", ls.len(), wl), ls.len(), |ctx, i| {
         check_line(ctx, &ls[i], wl);
     });
+    // LONG: deterministic deep lines (hundreds of moves): sweeps of the walker over the whole chain,
+    // the UCI list round trip and every print policy with three-digit move numbers
+    let ll = crate::props::common::long_lines(thorough);
+    run.par_shards(&format!("LONG: {} deterministic lines of up to {} plies x walker sweeps (every step checked) + words <= 2 x all print policies (single deep executions)", ll.len(), uni::long_max(thorough)), ll.len(), |ctx, i| {
+        let line = Line { start: ll[i].0, moves: ll[i].1.clone() };
+        check_line(ctx, &line, 2);
+    });
     let bl = battery_lines();
     let chunks: Vec<&[Line]> = bl.chunks(256).collect();
     run.par_shards(&format!("BATTERY capture lines ({} one-ply chains) x walker words <= 2 x all print policies", bl.len()), chunks.len(), |ctx, i| {
@@ -412,5 +484,6 @@ pub fn replay(case: &Value, ctx: &mut Ctx) {
         line.moves.push(m);
         p = p.apply(m);
     }
-    check_line(ctx, &line, 6);
+    let wl = if line.moves.len() > 20 { 2 } else { 6 };
+    check_line(ctx, &line, wl);
 }
